@@ -654,6 +654,7 @@ class Tahoe2ServerSelector(log.PrefixingLogMixin):
         while effective_happiness < min_happiness and \
               (last_happiness is None or len(write_trackers)):
             errors_before = self._query_stats.bad
+            writable_before = len(write_trackers)
             self._share_placements = self.peer_selector.get_share_placements()
 
             placements = []
@@ -679,9 +680,12 @@ class Tahoe2ServerSelector(log.PrefixingLogMixin):
             yield defer.DeferredList(placements)
             merged = merge_servers(self.peer_selector.get_sharemap_of_preexisting_shares(), self.use_trackers)
             effective_happiness = servers_of_happiness(merged)
-            if effective_happiness == last_happiness:
+            if effective_happiness == last_happiness and \
+               len(write_trackers) == writable_before:
                 # print("effective happiness still {}".format(last_happiness))
-                # we haven't improved over the last iteration; give up
+                # we haven't improved over the last iteration, and we
+                # haven't learned that another server is full either (which
+                # would change the next plan); give up
                 break;
             if errors_before == self._query_stats.bad:
                 break;
